@@ -113,6 +113,17 @@ def parseQuery (j : Json) : Except String Query := do
   | "defaultCategory" => pure (.defaultCategory (← getSym j "u"))
   | "quantityType" => pure (.quantityType (← getSym j "u"))
   | "catInfo" => pure (.catInfo (← getSym j "c"))
+  | "allUnits" => pure .allUnits
+  | "allUnitNames" => pure .allUnitNames
+  | "unitNames" => pure (.unitNames (← getSym j "qt"))
+  | "quantityTypes" => pure .quantityTypes
+  | "checkQuantityType" => pure (.checkQuantityType (← getSym j "qt"))
+  | "categories" => pure .categories
+  | "isValidCategory" => pure (.isValidCategory (← getSym j "c"))
+  | "unitName" => pure (.unitName (← getSym j "qt") (← getSym j "u"))
+  | "checkQtUnit" => pure (.checkQtUnit (← getSym j "qt") (← getSym j "u"))
+  | "info" => pure (.info (← getSym j "qt") (← getSym j "u") (← getBool j "fu"))
+  | "getValue" => pure (.getValue (← getSym j "c") (← getSym j "u") (← getSym j "v") (← getRat j "x"))
   | "mul" | "div" =>
     pure (.prod (if q == "mul" then .mul else .div) (← getSym j "c1") (← getSym j "u1") (← getSym j "c2")
       (← getSym j "u2") (← getRat j "x") (← getRat j "y"))
@@ -175,6 +186,9 @@ def qMag (r : Registry) : Query → Rat
   | .add _ _ c2 u2 x y =>
     let qt := match catGet r.cats c2 with | some ci => ci.qtype | none => c2
     maxR (absR x) (convMag r qt u2 u2 y)
+  | .getValue c u _ x =>
+    let qt := match catGet r.cats c with | some ci => ci.qtype | none => c
+    convMag r qt u u x
   | .sumd _ e1 e2 x y =>
     -- the matched values (unit conversions inside and across the operands) bound the intermediates
     match matchList lg r (decide (1 < e1.length)) [] x e1 with
